@@ -25,6 +25,10 @@ CLAIMED = {
    text="Theorem C10_modes (Coq): for any tables, any flag set without --redactFieldNames and ANY encryption function, placeholder-mode and encrypt-mode outputs of the same tree have the same shape and at every leaf position are equal, or placeholder mode emitted a class placeholder ph for string s and encrypt mode emitted redactString(s, ph) (the ciphertext of that same s; ph itself when encryption fails: C10_fail_closed). C10_injective: decryptability implies distinct plaintexts give distinct ciphertexts. Determinism is functionality of the model. Correspondence through the set of positions at which the two modes differ; the oracle decrypts every differing leaf with the implementation's Decrypt, checks equal/unequal plaintext <-> ciphertext across lines and runs, injects unusable keys through the API, and runs two CLI processes with one key file.",
    note="AES-SIV is abstract (the theorem quantifies over every encryption function); cryptographic strength is not modelled. Key loaded once per run is exercised through the CLI stream.",
    technique="Coq proof (two-configuration refinement relation, induction over trees) + correspondence", ref="6/C10"),
+ 'C01': dict(
+   text="Theorem C01_absent (Coq), for ANY operator tables without an exempt empty key, any flags outside the selective mode, any leaf actions (placeholders or encryption): for every query-bearing value of a command document (query/filter/sort/q/update/u objects; update/u/updates/deletes/documents/pipeline arrays) and every index path to a leaf that passes below no key named like a non-redactable table entry, the output holds at that path the strong verdict: a string not starting with '$' is replaced by redactString(s, one of the five class placeholders) or its pseudonym, a number by RedactedNumber under --redactNumbers, a boolean by RedactedBoolean under --redactBooleans (walk_ok1: induction over all trees for the three walkers, nested sub-pipelines and arrays of arrays included; get_op_good: whatever getOp/traverseMapPath return with a type is an entry of the tables keyed by the last path element). Obligation tables_ok_exempt (kernel computation on the regenerated tables): every entry that is not Redactable is in Spec/Exempt.v's list written from the categories of the property text. C01_remote: attr.remote under --redactIPs. Tied to the code by comparing the set of surviving planted literals in model and implementation output; the oracle greps the whole output line for every planted sensitive core, in-process and through the real CLI flags.",
+   note="The theorem is about key NAMES: a user field named like an operator argument (type, path, index, ...) makes the path non-clear; those inputs are covered by the 'collide' stream of the correspondence/oracle only. A bare scalar as the whole argument of $replaceRoot.newRoot / $bucket.groupBy / $sortByCount is read as a name by the tool (outside the claim). Field-name redaction on is C15's business. Walkers/line logic are hand-written models tied by correspondence.",
+   technique="Coq proof (induction over JSON trees + table-lookup bridge lemma) + regenerated-table obligation + correspondence", ref="6/C01"),
 }
 
 def main():
